@@ -222,6 +222,95 @@ def t_importance_k_csmc(E):
     E.refutable("smc.importance_k.csmc", E.eq(lw.at(z3.IntVal(0)), 0.0))
 
 
+@task("smc.reciprocal_normalizing_constant", props=["C26", "C25"], functions=FUNCS + [
+    SMC + ":SMCAlgorithm.estimate_reciprocal_normalizing_constant", SMC + ":ChangeTarget.run_csmc_for_normalizing_constant"])
+def t_reciprocal(E):
+    """estimate_reciprocal_normalizing_constant(key, target, latent choices, w) (what Marginal with an algorithm returns as its
+    density estimate): conditional SMC of the algorithm with the latent choices retained; the K-1 other particles are
+    re-weighted for the target (new importance weight - old score + old weight), the retained one gets  w - its score + its
+    weight; the result is  retained score - (logsumexp(all K weights) - log K)."""
+    z3, T = E.z3, E.I.T
+    R = z3.RealSort()
+    tgt, g, args, c = target_(E)
+    old_tgt = E.new(SP + ":Target", p=G(E, "p_old"), args=E.opaque("old_args", "tuple"), constraint=chm(E, "old_constraint"))
+    K = E.int("K", conc=True)
+    E.assume(K.t >= 2)
+    cf = E.ctx.fn("prev_csmc_particle", U, U, z3.IntSort(), U)
+    cw = E.ctx.fn("prev_csmc_logw", U, U, z3.IntSort(), R)
+    runs = []
+
+    def run_csmc(I, s, key_, retained):
+        kt, rt = I.to_u(key_), I.to_u(retained)
+        runs.append((kt, rt))
+        return E.new(SMC + ":ParticleCollection", particles=Stacked(K.t, lambda i: UVal(cf(kt, rt, i), "Trace")),
+                     log_weights=Stacked(K.t, lambda i: SReal(cw(kt, rt, i))), is_valid=SBool(True, False))
+    am = E.I.abstract_methods
+    am[("SMCAlgorithm", "run_csmc")] = run_csmc
+    am[("SMCAlgorithm", "get_num_particles")] = lambda I, s: K
+    am[("SMCAlgorithm", "get_final_target")] = lambda I, s: old_tgt
+    E.I.abstract_classes = dict(E.I.abstract_classes, SMCAlgorithm=SMC + ":SMCAlgorithm")
+    stacked_operands = []
+
+    def stack_to_first_dim(I, a, b):
+        from theory.externals import ite
+        if isinstance(a, Stacked):
+            stacked_operands.append((a, b))
+            n = a.n if not isinstance(a.n, int) else z3.IntVal(a.n)
+            return Stacked(n + 1, lambda i: ite(I, i < n, a.at(i), b), tag="stack_to_first_dim")
+        raise Exception(f"stack_to_first_dim model: first operand {type(a).__name__}")
+    E.I.overrides[SMC + ":stack_to_first_dim"] = stack_to_first_dim
+    lse_args = []
+    real_lse = E.I.ext["jax.scipy.special.logsumexp"]
+
+    def recording_lse(I, x, *a, **kw):
+        lse_args.append(x)
+        return real_lse(I, x, *a, **kw)
+    E.I.ext["jax.scipy.special.logsumexp"] = recording_lse
+    prev = E.opaque("prev", "SMCAlgorithm")
+    k = key(E)
+    latent, w = chm(E, "latent_choices"), E.real("w")
+    st, res = E.attempt(lambda: E.method(prev, "estimate_reciprocal_normalizing_constant", k, tgt, latent, w))
+    E.require("C26.estimate_reciprocal_normalizing_constant.does_not_raise", st == "ok", raised=str(res))
+    E.require("C26.estimate_reciprocal_normalizing_constant.one_conditional_run_one_evidence_sum",
+              len(runs) == 1 and len(lse_args) == 1 and len(stacked_operands) == 1 and isinstance(lse_args[0], Stacked))
+    rk, rr = runs[0]
+    E.prove("C26.estimate_reciprocal_normalizing_constant.the_latent_choices_are_the_retained_particle", rr == latent.t)
+    from pyvc.interp_ops import zreal as _zr
+    allw = lse_args[0]
+    old_p, old_w = (lambda i: cf(rk, rr, i)), (lambda i: cw(rk, rr, i))
+    last = K.t - 1
+
+    def others(i):
+        wi = z3.simplify(_zr(allw.at(i)))
+        lat_i = T.chm_filter_sel(T.tr_choices(old_p(i)), T.sel_not(T.chm_sel(old_tgt.fields["constraint"].t)))
+        merged = T.chm_or(c.t, lat_i)
+        # the new importance weight of particle i: gen_w(g, some key, merged, args)
+        found, seen_ = [], set()
+
+        def walk(e):
+            if e.get_id() in seen_:
+                return
+            seen_.add(e.get_id())
+            if z3.is_app(e) and e.decl().name() == "gf_generate_w":
+                found.append(e)
+            for ch in e.children():
+                walk(ch)
+        walk(wi)
+        if len(found) != 1:
+            return z3.BoolVal(False)
+        gw = found[0]
+        return z3.And(gw.arg(0) == g.t, gw.arg(2) == merged, gw.arg(3) == args.t, wi == gw - T.tr_score(old_p(i)) + old_w(i))
+    E.prove("C26.estimate_reciprocal_normalizing_constant.other_particles_are_reweighted_for_the_target", z3.And(
+        (allw.n if not isinstance(allw.n, int) else z3.IntVal(allw.n)) == K.t, forall_i(E, K.t - 1, others)))
+    E.prove("C26.estimate_reciprocal_normalizing_constant.retained_particle_carries_the_given_weight",
+            _zr(allw.at(last)) == w.t - T.tr_score(old_p(last)) + old_w(last))
+    lse = E.ctx.fn("logsumexp", U, R)
+    log = E.ctx.fn("log", R, R)
+    E.prove("C26.estimate_reciprocal_normalizing_constant.is_retained_score_minus_log_mean_weight",
+            E.eq(res, SReal(T.tr_score(old_p(last)) - (lse(E.I.to_u(allw)) - log(z3.ToReal(K.t))))), also=["C25"])
+    E.refutable("smc.reciprocal_normalizing_constant", E.eq(res, 0.0))
+
+
 @task("smc.change_target", props=["C26"], functions=FUNCS)
 def t_change_target(E):
     """ChangeTarget reweights each particle by  new target weight - old particle score + old weight"""
